@@ -6,8 +6,9 @@ ARGS = [((), {}), ((1,), {}), ((1, 2), {"k": 3}), (("x",), {"y": None}), ((-1,),
         ((), {"a": 1, "b": 2}), ((), {"a": 2})]
 
 
-def make_classes(parents):
-    """parents[i] = index of the parent class of class i, or None.  All use metaclass TrueSingleton."""
+def make_classes(parents, falsy=None):
+    """parents[i] = index of the parent class of class i, or None.  All use metaclass TrueSingleton.
+    falsy[i] in (0, 1, 2): root class i is an ordinary / empty-container-like (__len__ == 0) / __bool__-False class"""
     from edgegraph.structure import singleton
     classes = []
     for i, p in enumerate(parents):
@@ -16,7 +17,13 @@ def make_classes(parents):
                 if not hasattr(self, "_vlog"):
                     self._vlog = []
                 self._vlog.append((type(self), a, k))
-            cls = singleton.TrueSingleton(f"S{i % 2}", (), {"__init__": __init__})
+            ns = {"__init__": __init__}
+            f = falsy[i] if falsy else 0
+            if f == 1:
+                ns["__len__"] = lambda self: 0
+            elif f == 2:
+                ns["__bool__"] = lambda self: False
+            cls = singleton.TrueSingleton(f"S{i % 2}", (), ns)
         else:
             cls = singleton.TrueSingleton(f"S{i % 2}", (classes[p],), {})
         classes.append(cls)
@@ -29,7 +36,7 @@ class History(Leg):
     checkfn = "tcheck"
     case_type = "list top * list (option (nat * list (nat * nat)))"
     rule = ("random histories (len 3-24) of Construct(class,args)/Clear(class)/Clear(all) over 2-4 classes incl. "
-            "parent/child pairs; non-trivial = contains a clear followed by a re-construction; distinct = distinct op list")
+            "parent/child pairs, 2 in 5 root classes with falsy instances (__len__ == 0 or __bool__ False); non-trivial = contains a clear followed by a re-construction; distinct = distinct op list")
     quick_n = 600
     thorough_n = 20000
 
@@ -48,12 +55,13 @@ class History(Leg):
                     ops.append(["X", rng.randrange(k)])
                 else:
                     ops.append(["X", None])
-            yield {"parents": parents, "ops": ops}
+            falsy = [rng.choice([0, 0, 0, 1, 2]) if p is None else 0 for p in parents]
+            yield {"parents": parents, "ops": ops, "falsy": falsy}
 
     def observe(self, case):
         from edgegraph.structure import singleton
         singleton.clear_true_singleton()
-        classes = make_classes(case["parents"])
+        classes = make_classes(case["parents"], case.get("falsy"))
         ids = {}
         obs = []
         try:
@@ -158,7 +166,7 @@ class History(Leg):
     def shrink_candidates(self, case):
         ops = case["ops"]
         for i in range(len(ops)):
-            yield {"parents": case["parents"], "ops": ops[:i] + ops[i + 1:]}
+            yield {"parents": case["parents"], "ops": ops[:i] + ops[i + 1:], "falsy": case.get("falsy")}
 
     def stats(self, case, obs, acc):
         for op in case["ops"]:
